@@ -448,9 +448,9 @@ Lemma tc_convert_complete t a r : Convert t a r -> tc_convert t a = Some r.
 Proof.
   intros H. inv H; unfold tc_convert.
   - apply const_fits_spec in H2. unfold Numeric in H0, H1.
-    destruct H0 as [K|K], H1 as [C|C]; rewrite K, C, H2; reflexivity.
-  - rewrite H0, H1. reflexivity.
-  - rewrite H1. destruct H0 as [K|K]; rewrite K; reflexivity.
+    destruct v; simpl in *; destruct H0 as [K|K], H1 as [C|C]; rewrite K, C, H2; reflexivity.
+  - destruct v; simpl in *; rewrite H0, H1; reflexivity.
+  - destruct v; simpl in *; rewrite H1; destruct H0 as [K|K]; rewrite K; reflexivity.
   - destruct H0 as [E|[[N1 N2]|[K1 K2]]].
     + apply basic_eqb_spec in E. rewrite E. reflexivity.
     + apply is_numeric_spec in N1. apply is_numeric_spec in N2. rewrite N1, N2.
@@ -461,3 +461,91 @@ Qed.
 
 Lemma tc_convert_spec t a r : tc_convert t a = Some r <-> Convert t a r.
 Proof. split; [apply tc_convert_sound | apply tc_convert_complete]. Qed.
+
+(* --------------------------------------------------------------- expressions *)
+
+Scheme expr_mut := Induction for expr Sort Prop
+  with exprs_mut := Induction for exprs Sort Prop.
+Combined Scheme expr_exprs_ind from expr_mut, exprs_mut.
+
+Lemma args_ok_spec tas ps : args_ok tas ps = true <-> Forall2 Assignable tas ps.
+Proof.
+  revert ps. induction tas as [|a tas IH]; intros [|p ps]; simpl; split; intros H;
+    try discriminate; try constructor; try (inv H; fail).
+  - apply andb_prop in H. destruct H as [H1 H2]. apply assign_to_spec. assumption.
+  - apply andb_prop in H. destruct H as [H1 H2]. apply IH. assumption.
+  - inv H. apply andb_true_intro. split; [apply assign_to_spec; assumption | apply IH; assumption].
+Qed.
+
+Lemma tc_expr_sound G E :
+  (forall e te, tc_expr G E e = Some te -> has_type G E e te) /\
+  (forall es tes, tc_exprs G E es = Some tes -> has_types G E es tes).
+Proof.
+  apply expr_exprs_ind; simpl; intros.
+  - inv H. constructor.
+  - inv H. constructor.
+  - inv H. constructor.
+  - inv H. constructor.
+  - inv H. constructor.
+  - discriminate.
+  - destruct (N.eqb_spec x blank) as [B|B]; [discriminate|].
+    destruct (lookup E x) as [[t|c|ps rs]|] eqn:L; try discriminate.
+    + inv H. apply T_Var; assumption.
+    + inv H. apply T_Const; assumption.
+  - destruct (tc_expr G E e) as [ta|] eqn:A; [|discriminate].
+    eapply T_Un; [apply H; reflexivity | apply tc_unary_sound; assumption].
+  - destruct (tc_expr G E a) as [ta|] eqn:A; [|discriminate].
+    destruct (tc_expr G E b) as [tb|] eqn:B; [|discriminate].
+    eapply T_Bin; [apply H; reflexivity | apply H0; reflexivity | apply tc_binary_sound; assumption].
+  - destruct (tc_expr G E e) as [ta|] eqn:A; [|discriminate].
+    eapply T_Conv; [apply H; reflexivity | apply tc_convert_sound; assumption].
+  - destruct (lookup E f) as [[t|c|ps rs]|] eqn:L; try discriminate.
+    destruct (tc_exprs G E args) as [tas|] eqn:A; [|discriminate].
+    destruct (args_ok tas ps) eqn:O; [|discriminate]. inv H0.
+    eapply T_Call; [eassumption | apply H; reflexivity | apply args_ok_spec; assumption].
+  - destruct (memN p G) eqn:M; simpl in H0; [|discriminate]. apply memN_spec in M.
+    destruct (pkg_sig p f) as [[ps rs]|] eqn:S; [|discriminate].
+    destruct (tc_exprs G E args) as [tas|] eqn:A; [|discriminate].
+    destruct (args_ok tas ps) eqn:O; [|discriminate]. inv H0.
+    eapply T_Pkg; [assumption | eassumption | apply H; reflexivity | apply args_ok_spec; assumption].
+  - inv H. constructor.
+  - destruct (tc_expr G E e) as [t|] eqn:A; [|discriminate].
+    destruct (tc_exprs G E r) as [ts|] eqn:B; [|discriminate]. inv H1.
+    constructor; [apply H | apply H0]; reflexivity.
+Qed.
+
+Ltac use_ih := repeat match goal with
+  | IH : forall te, has_type _ _ ?e te -> _ = Some te, Hx : has_type _ _ ?e _ |- _ => rewrite (IH _ Hx); clear Hx
+  | IH : forall tes, has_types _ _ ?e tes -> _ = Some tes, Hx : has_types _ _ ?e _ |- _ => rewrite (IH _ Hx); clear Hx
+  end.
+
+Lemma tc_expr_complete G E :
+  (forall e te, has_type G E e te -> tc_expr G E e = Some te) /\
+  (forall es tes, has_types G E es tes -> tc_exprs G E es = Some tes).
+Proof.
+  apply expr_exprs_ind; simpl; intros.
+  - inv H. reflexivity.
+  - inv H. reflexivity.
+  - inv H. reflexivity.
+  - inv H. reflexivity.
+  - inv H. reflexivity.
+  - inv H.
+  - inv H; (destruct (N.eqb_spec x blank) as [B|B]; [contradiction|]);
+      match goal with L : lookup _ _ = _ |- _ => rewrite L end; reflexivity.
+  - inv H0. use_ih. apply tc_unary_complete. assumption.
+  - inv H1. use_ih. apply tc_binary_complete. assumption.
+  - inv H0. use_ih. apply tc_convert_complete. assumption.
+  - inv H0. use_ih. match goal with L : lookup _ _ = _ |- _ => rewrite L end.
+    match goal with A : Forall2 _ _ _ |- _ => apply args_ok_spec in A; rewrite A end. reflexivity.
+  - inv H0. use_ih. match goal with M : In _ _ |- _ => apply memN_spec in M; rewrite M end. simpl.
+    match goal with L : pkg_sig _ _ = _ |- _ => rewrite L end.
+    match goal with A : Forall2 _ _ _ |- _ => apply args_ok_spec in A; rewrite A end. reflexivity.
+  - inv H. reflexivity.
+  - inv H1. use_ih. reflexivity.
+Qed.
+
+Theorem tc_expr_iff G E e te : tc_expr G E e = Some te <-> has_type G E e te.
+Proof. split; [apply tc_expr_sound | apply tc_expr_complete]. Qed.
+
+Theorem tc_exprs_iff G E es tes : tc_exprs G E es = Some tes <-> has_types G E es tes.
+Proof. split; [apply tc_expr_sound | apply tc_expr_complete]. Qed.
